@@ -143,7 +143,7 @@ impl Config {
     // ASSUMED (repo function core/mod.rs): <work_path>/<out_dir>/run
     #[verifier::external_body] pub fn get_run_path(&self, work_path: &path::Path) -> (r: path::PathBuf) { unimplemented!() }
 }
-//!fn src/app/run.rs setup_run_path rules=R1,R10,R16,R17 props=C12,C13
+//!fn src/app/run.rs setup_run_path rules=R1,R10,R16,R17 props=C12,C13,C08
 fn setup_run_path(
     cfg: &core::Config,
     run_id: usize,
@@ -151,7 +151,7 @@ fn setup_run_path(
  Tracked(w): Tracked<&mut World>) -> ⟦(res: ⟧Result<path::PathBuf, MonorailError>⟦)⟧
 @    ensures
 @        // C12: nothing of an older run that used the same slot is left over (barring environmental I/O faults) ...
-@        res matches Ok(p) ==> (final(w).io_faults == old(w).io_faults ==> forall|q: Seq<char>| #![trigger fs::under(p@, q)] fs::under(p@, q) ==> !final(w).fs.dom().contains(q)), // [C12]
+@        res matches Ok(p) ==> (final(w).io_faults == old(w).io_faults ==> forall|q: Seq<char>| #![trigger fs::under(p@, q)] fs::under(p@, q) ==> !final(w).fs.dom().contains(q)), // [C12,C08]
 @        // ... C13: and nothing outside the slot directory is touched (the recorded run, the pointer, the checkpoint)
 @        res matches Ok(p) ==> forall|q: Seq<char>| #![trigger fs::under(p@, q)] !fs::under(p@, q) ==> (final(w).fs.dom().contains(q) == old(w).fs.dom().contains(q) && final(w).fs[q] == old(w).fs[q]), // [C13]
 {
@@ -168,7 +168,7 @@ fn setup_run_path(
 // the document type is of no interest here (serde_json::to_writer is generic in it)
 pub struct RunOutput { pub x: u8 }
 #[verifier::external_body] pub fn io_to_generic(e: std::io::Error) -> (r: MonorailError) ensures r is Generic { unimplemented!() }
-//!fn src/app/run.rs store_run_output rules=R10,R12,R17 props=C12
+//!fn src/app/run.rs store_run_output rules=R10,R12,R17 props=C12,C13
 fn store_run_output(run_output: &RunOutput, run_path: &path::Path, Tracked(w): Tracked<&mut World>) -> ⟦(res: ⟧Result<(), MonorailError>⟦)⟧
 @    requires
 @        // the slot's result file is not the run pointer (different directories of the output tree)
@@ -180,7 +180,7 @@ fn store_run_output(run_output: &RunOutput, run_path: &path::Path, Tracked(w): T
 @            && final(w).fs[path_join(run_path@, result::RESULT_OUTPUT_FILE_NAME@)] == zstd_frame(json_enc(*run_output)), // [C12]
 @        // nothing else on disk is touched (the run pointer stays recoverable: it still names the previous run until Run::save)
 @        forall|q: Seq<char>| q != path_join(run_path@, result::RESULT_OUTPUT_FILE_NAME@) ==> (final(w).fs.dom().contains(q) == old(w).fs.dom().contains(q) && final(w).fs[q] == old(w).fs[q]), // [C13]
-@        recoverable(*final(w)),
+@        recoverable(*final(w)), // [C12,C13]
 {
     let run_result_file = fs::OpenOptions::new()
         .create(true)
